@@ -11,10 +11,13 @@ open OsacaVerif.Text
 /-- `str.isspace` on ASCII: TAB LF VT FF CR, FS GS RS US, SPACE -/
 def isSpaceC (c : Nat) : Bool := (decide (9 ≤ c) && decide (c ≤ 13)) || (decide (28 ≤ c) && decide (c ≤ 32))
 
-def lstrip (t : Txt) : Txt := t.dropWhile isSpaceC
-def rstrip (t : Txt) : Txt := (t.reverse.dropWhile isSpaceC).reverse
+/-- the whitespace `int()` skips around a literal (ASCII): TAB LF VT FF CR SPACE — *not* FS GS RS US -/
+def isIntSpaceC (c : Nat) : Bool := (decide (9 ≤ c) && decide (c ≤ 13)) || c == 32
+
+/-- strip the characters satisfying `p` from both ends -/
+def stripWith (p : Nat → Bool) (t : Txt) : Txt := ((t.dropWhile p).reverse.dropWhile p).reverse
 /-- `s.strip()` -/
-def strip (t : Txt) : Txt := rstrip (lstrip t)
+def strip (t : Txt) : Txt := stripWith isSpaceC t
 
 /-- `line.strip() == ""` -/
 def isBlank (t : Txt) : Bool := t.all isSpaceC
@@ -48,7 +51,7 @@ def signed (body : Txt → Option Nat) (t : Txt) : Option Int :=
   | r => (body r).map (fun n => (n : Int))
 
 /-- `int(s)` (base 10) -/
-def pyInt10 (t : Txt) : Option Int := signed (digitsU 10 0 false) (strip t)
+def pyInt10 (t : Txt) : Option Int := signed (digitsU 10 0 false) (stripWith isIntSpaceC t)
 
 /-- after a base prefix one underscore is allowed before the first digit -/
 def afterPrefix (base : Nat) (r : Txt) : Option Nat :=
@@ -70,7 +73,7 @@ def body0 (r : Txt) : Option Nat :=
   | _ => digitsU 10 0 false r
 
 /-- `int(s, 0)` -/
-def pyInt0 (t : Txt) : Option Int := signed body0 (strip t)
+def pyInt0 (t : Txt) : Option Int := signed body0 (stripWith isIntSpaceC t)
 
 /-- decimal rendering of a natural number (`str(n)`) -/
 def natDigits (n : Nat) : Txt :=
